@@ -2,6 +2,7 @@ package sim
 
 import (
 	"fmt"
+	"sort"
 	"math/big"
 
 	sdk "github.com/cosmos/cosmos-sdk/types"
@@ -19,7 +20,7 @@ type rxRecord struct {
 
 var c02ReplayKinds = []string{"verbatim", "other-body", "other-recipient", "other-caller", "other-v-encoding", "other-submitter",
 	"after-pause-unpause", "after-attester-rotation", "after-unlink-relink", "after-restart", "after-export-import", "as-non-module", "as-module",
-	"after-messenger-remove-readd", "after-admin-churn"}
+	"after-messenger-remove-readd", "after-admin-churn", "after-domain-decommission"}
 
 // runC02 drives replay-heavy histories; the exactly-once verdicts come from the engine's
 // outcome oracle (nonce-used => MustFail), the state tap (used set == model), the
@@ -255,6 +256,37 @@ func runC02(rc *RunCtx) {
 					if addr, ok := e.M.Messengers[d]; ok {
 						admin(&ct.MsgRemoveRemoteTokenMessenger{From: Acct(OwnerIx), DomainId: d})
 						admin(&ct.MsgAddRemoteTokenMessenger{From: Acct(OwnerIx), DomainId: d, Address: addr})
+					}
+				case "after-domain-decommission":
+					// every token pair of the source domain unlinked, its messenger removed (rotation needs remove + add), both
+					// restored: what was received from the domain stays received
+					d := in2.Src
+					type pk struct {
+						t  string
+						lt string
+					}
+					var ps []pk
+					for k, lt := range e.M.Pairs {
+						if k.Domain == d {
+							ps = append(ps, pk{k.Token, lt})
+						}
+					}
+					sort.Slice(ps, func(i, j int) bool { return ps[i].t < ps[j].t })
+					for _, p := range ps {
+						admin(&ct.MsgUnlinkTokenPair{From: Acct(TCIx), RemoteDomain: d, RemoteToken: []byte(p.t), LocalToken: p.lt})
+					}
+					addr, had := e.M.Messengers[d]
+					if had {
+						admin(&ct.MsgRemoveRemoteTokenMessenger{From: Acct(OwnerIx), DomainId: d})
+					}
+					e.queryUsedNonce(&Tx{Note: "C02 after the domain was decommissioned"}, nonceKey{d, in2.Nonce})
+					if had {
+						admin(&ct.MsgAddRemoteTokenMessenger{From: Acct(OwnerIx), DomainId: d, Address: addr})
+					}
+					for _, p := range ps {
+						if len(p.t) == 32 {
+							admin(&ct.MsgLinkTokenPair{From: Acct(TCIx), RemoteDomain: d, RemoteToken: []byte(p.t), LocalToken: p.lt})
+						}
 					}
 				case "after-admin-churn":
 					// every kind of administrative write and its inverse between the receive and its replay
